@@ -191,6 +191,7 @@ PROPS["C20"] = {
 }
 
 PROPS["C12"] = {
+    "ready": False,
     "feature": "c12",
     "tiers": tiers("C12"),
     "mem_gb": 20,
@@ -202,6 +203,7 @@ PROPS["C12"] = {
 }
 
 PROPS["C06"] = {
+    "ready": False,
     "feature": "c06",
     "tiers": tiers("C06"),
     "mem_gb": 20,
@@ -217,6 +219,7 @@ PROPS["C06"] = {
 }
 
 PROPS["C19"] = {
+    "ready": False,
     "feature": "c19",
     "tiers": tiers("C19"),
     "mem_gb": 16,
@@ -228,6 +231,7 @@ PROPS["C19"] = {
 }
 
 PROPS["C18"] = {
+    "ready": False,
     "feature": "c18",
     "tiers": tiers("C18"),
     "mem_gb": 20,
